@@ -191,9 +191,10 @@ theorem apiNew_eq (m : Model) (kind : String) (vs : List Val) (c : Cls) (hc : fi
     rfl
   · simp only [hemp, Bool.false_eq_true, if_false]
     have := relateLinks_spec kind (newGiven c vs) c.rows.length rowsRaw
-      (m.assocs.map (·.1)) m.assocs []
+      (m.assocs.map (·.1)) (withRow m kind (stripRow (referential (m.assocs.map (·.1)) kind) (newGiven c vs)))
+      m.assocs []
       (withRow m kind (stripRow (referential (m.assocs.map (·.1)) kind) (newGiven c vs)))
-      (by simp [withRow]) (by simp) (by intro q p hq; simpa using hready q p hq)
+      (by simp [withRow]) (by simp) (Agrees.refl _ _ _) (by intro q p hq; simpa using hready q p hq)
     refine Eq.trans this ?_
     simp [withRow]
 
@@ -265,14 +266,39 @@ theorem apiNew_step (ss : List Stmt) (order pre suf : List (String × List Val))
       have ha : a ∈ popAssocs ss := List.mem_of_getElem? haq
       obtain ⟨hk1, hk2, hk3, hk4⟩ := g.keys a ha
       rw [hall, hs]
-      refine ⟨hk1, hk2, hk3, hk4, g.noChain a ha, ha, fun _ => g.resolves q a haq, ?_, ?_, ?_, ?_⟩
+      refine ⟨hk1, hk2, hk3, hk4, ha, fun _ => g.resolves q a haq, ?_, ?_, ?_, ?_, ?_, ?_⟩
       · intro hk sk hsk
         rw [hnames, ← hk]
         exact g.srcDeclared a ha sk hsk
       · intro hk
         have hne : ¬ a.tgtKind = o.1 := fun h => hk4 (hk.trans h.symm)
         simp only [withRow, rowsOf_addRow, hne, if_false]
-        exact inv.rows a.tgtKind
+        rw [inv.rows a.tgtKind]; simp
+      · -- the query's test reads stored identifying values
+        intro hk hnn m' hag j t htj
+        have hne : ¬ a.tgtKind = o.1 := fun h => hk4 (hk.trans h.symm)
+        have hst' : m'.assocs.map (·.1) = popAssocs ss := by
+          rw [hag.stmts]; exact hall
+        obtain ⟨f, hf⟩ := fuelOf_pos (withRow m o.1 (stripRow (referential (popAssocs ss) o.1) (rawRow ss o)))
+        rw [hf]
+        apply rowMatches_nochain a m' f _ t j (by rw [hst']; exact g.noChain a ha) _ hnn
+        rw [hst', hag.classes]
+        simp only [withRow, rowsOf_addRow, hne, if_false]
+        rw [inv.rows a.tgtKind, List.getElem?_map, htj]
+        rfl
+      · -- as a referred row the new row has a stored (non-referential) identifying attribute: nothing to relate
+        intro hk m' _
+        have := relateLink_source_skip a m' (refsOf (popAssocs ss) o.1 (rawRow ss o)) (popAssocs ss) c.rows.length
+          hk1 hk2 hk3
+          (by
+            intro x hx
+            obtain ⟨p, hp, rfl⟩ := List.mem_map.mp hx
+            have := (List.mem_filter.mp hp).2
+            rw [hk]
+            simpa using this)
+          (g.noChain a ha)
+        rw [hk] at this
+        exact this
       · intro hk j hj
         simp only
         refine ⟨?_, ?_, ?_⟩
